@@ -1482,7 +1482,7 @@ BD_Shape<T>::relation_with(const Congruence& cg) const {
   PPL_DIRTY_TEMP_COEFFICIENT(max_value);
   max_value = max_numer / max_denom;
   signed_distance = max_value % modulus;
-  max_value += signed_distance;
+  max_value -= signed_distance;
   if (max_value * max_denom > max_numer) {
     max_value -= modulus;
   }
